@@ -176,7 +176,7 @@ func runeClass(s string, i int) string {
 
 var keywordKeys = []string{"for", "if", "in", "null", "true", "false", "else", "endif", "endfor", "each", "count", "self"}
 var identKeys = []string{"a", "b", "k1", "x-y", "_u", "é", "日本", "a-", "A1", "é", "for_", "forx", "fo", "nul", "True", "FOR", "a--b", "a_b-c9", "ĳ", "Ω"}
-var nonIdentKeys = []string{"", "1a", "a b", "a.b", "-x", "a=b", "${x}", "%{y}", "for x", "\n", "0", "1.5", "a[0]", "a\"b", "a\\b", " for", "for ", "a:b", "#", "a/b", "*", "$", "%", "{", "}", "a,b", "null ", "tru e", "007", "1e3", "0x10", "1_000", "٣"}
+var nonIdentKeys = []string{"", "1a", "a b", "a.b", "-x", "a=b", "${x}", "%{y}", "for x", "\n", "0", "1.5", "a[0]", "a\"b", "a\\b", " for", "for ", "a:b", "#", "a/b", "*", "$", "%", "{", "}", "a,b", "null ", "tru e", "007", "1e3", "0x10", "1_000", "٣", "\ufeffa", "\ufeff", "a\ufeff", "\ufefffor"}
 
 func genKey(r *lib.Rand) string {
 	switch r.Weighted([]int{5, 4, 3, 4}) {
